@@ -208,7 +208,7 @@ package cache
 //@   ensures [five-percent-deviation] calls(mathx.NewUnstable, 0.05) == 1 && n.unstableExpire == ret(mathx.NewUnstable)
 //@ func newOptions
 //@   prop C06
-//@   loop 1 invariant -1 <= rangeindex
+//@   loop 1 invariant -1 <= rangeindex && rangeindex < len(opts) && (rangeindex == -1 ==> o.Expire == 0 && o.NotFoundExpire == 0)
 //@   ensures [positive-expiries] result.Expire > 0 && result.NotFoundExpire > 0
 //@   ensures [defaults-when-unset] len(opts) == 0 ==> result.Expire == defaultExpire && result.NotFoundExpire == defaultNotFoundExpire
 //@ func WithExpire$1
